@@ -2556,8 +2556,12 @@ class Convex:
         if self.xtype not in 'XL':
             raise ValueError('Convex functions do not support the sum() method.')
 
+        if self.params is not None:
+            raise ValueError('The sum() method is applied only once.')
+
         return Convex(self.affine_in, self.affine_out.sum(axis=axis),
-                      self.xtype, self.sign, self.multiplier, axis, params=self.params)
+                      self.xtype, self.sign, self.multiplier, axis,
+                      params=('sum', axis))
 
     def __call__(self):
 
@@ -2591,9 +2595,15 @@ class Convex:
             elif self.xtype == 'Q':
                 output = self.multiplier**2*self.sign*(value_in**2).sum() + value_out
             elif self.xtype == 'X':
-                output = self.multiplier*self.sign*np.exp(value_in) + value_out
+                atom = np.exp(value_in)
+                if self.params is not None:
+                    atom = atom.sum(axis=self.params[1])
+                output = self.multiplier*self.sign*atom + value_out
             elif self.xtype == 'L':
-                output = - self.multiplier*self.sign*np.log(value_in) + value_out
+                atom = np.log(value_in)
+                if self.params is not None:
+                    atom = atom.sum(axis=self.params[1])
+                output = - self.multiplier*self.sign*atom + value_out
             elif self.xtype == 'F':
                 output = self.multiplier*self.sign*np.log(1+np.exp(value_in)) + value_out
             elif self.xtype == 'P':
@@ -4597,9 +4607,15 @@ class DecConvex(Convex):
                     item += value_out
                     output.append(item)
                 elif self.xtype == 'X':
-                    output.append(self.multiplier*self.sign*np.exp(value_in) + value_out)
+                    atom = np.exp(value_in)
+                    if self.params is not None:
+                        atom = atom.sum(axis=self.params[1])
+                    output.append(self.multiplier*self.sign*atom + value_out)
                 elif self.xtype == 'L':
-                    item = -self.multiplier*self.sign*np.log(value_in)
+                    atom = np.log(value_in)
+                    if self.params is not None:
+                        atom = atom.sum(axis=self.params[1])
+                    item = -self.multiplier*self.sign*atom
                     item += value_out
                     output.append(item)
                 elif self.xtype == 'P':
